@@ -404,7 +404,7 @@ M("C13", "fsg: writer header order", FM, """    fprintf(fp, "%s %d\\n", FSG_MODE
 M("C13", "fsg: writer integer division (seed C13-2)", FM, "(int32)(tl->logs2prob / fsg->lw)),", "tl->logs2prob / (int32)fsg->lw),", "TABLE.W4-scaling")
 M("C13", "fsg: writer multiplies lw", FM, "(int32)(tl->logs2prob / fsg->lw)),", "(int32)(tl->logs2prob * fsg->lw)),", "TABLE.W4-scaling")
 M("C13", "fsg: reader swaps i j", FM, "                fsg_model_trans_add(fsg, i, j, tprob, wid);\n                ++n_trans;", "                fsg_model_trans_add(fsg, j, i, tprob, wid);\n                ++n_trans;", "TABLE.W2-transition-line")
-M("C13", "fsg: reader to-state unchecked", FM, "            if (endptr == word || j < 0 || j >= fsg->n_state) {", "            if (endptr == word || j < 0 || j > fsg->n_state) {", "TABLE.W2-transition-line")
+M("C13", "fsg: reader to-state unchecked", FM, "            if (endptr == val || j < 0 || j >= fsg->n_state) {", "            if (endptr == val || j < 0 || j > fsg->n_state) {", "TABLE.W2-transition-line")
 M("C13", "fsg: dup arc keeps lower", FM, "            if (link->logs2prob < logp)\n                link->logs2prob = logp;\n            return;", "            if (link->logs2prob > logp)\n                link->logs2prob = logp;\n            return;", "ORDER.W3-merge")
 M("C13", "fsg: null dup returns 0 unchanged", FM, "            link->logs2prob = logp;\n            return 0;\n        } else\n            return -1;", "            link->logs2prob = logp;\n            return 0;\n        } else\n            return 0;", "ORDER.W3-merge")
 M("C13", "fsg: closure flag only on new (seed C13-1)", FM, """                if (k >= 0) {
